@@ -12,7 +12,6 @@ Oracles (all written from the definition, none of them calls the library):
 import contextlib
 import io
 import itertools
-import math
 
 import numpy as np
 from hypothesis import strategies as st
@@ -23,19 +22,26 @@ PROPERTY = "C16"
 Q = 100  # print_level / log_level that silences the library
 
 RULE = (
-    "uniform: d in 1..3, anisotropic level vector (levels 1..4, 1D up to 8, N below and above the 200-point path "
-    "switch), 1..40(+bulk) samples in [0,1]^d whose coordinates are drawn from {grid line of that dimension, 0, 1, "
-    "cell midpoint, arbitrary float, copy of an earlier sample}, lambda in {0,1e-3,0.1}, mass lumping on/off, labels "
-    "+-1 or none; the library is driven through setCurrentArea + build_R_matrix/calculate_B/solve_density_estimation "
-    "or through StandardCombi.perform_operation (all component grids of the scheme). dimwise: per-dimension dyadic "
-    "refinement trees (bisect a drawn interval, depth <= 6) give non-uniform stripes, boundary points off (on with "
-    "low weight), analytic or numeric entries (numeric only for <= 9 points), R cache on/off, two grids per operation "
-    "object; driven through set_grid + build_R_matrix_dimension_wise/calculate_B_dimension_wise/"
-    "calculate_operation_dimension_wise. sasd: a real SpatiallyAdaptiveSingleDimensions2 run with scripted errors, "
-    "every calculate_operation_dimension_wise call is compared with the oracle for the stripes it was given. hats: all "
-    "seven hat evaluations against the reference hat and pairwise, at points on grid lines, on support ends, on the "
-    "domain boundary and inside cells. Non-trivial = (anisotropic level vector with d>=2, or a non-uniform stripe) and "
-    ">=1 sample coordinate exactly on an interior grid line. Distinct = distinct case dict."
+    "uniform: d in 1..3, anisotropic level vector (levels 1..4, 1D up to 8; 1 in 10 cases aims at N>=200, the switch of "
+    "the right-hand-side code path; N<=320 quick / 520 thorough), 1..12 (thorough 30) explicit samples (+0/10/40 seeded "
+    "bulk samples, 15% of their coordinates snapped to grid lines) in [0,1]^d whose coordinates are drawn from {grid "
+    "line of that dimension, 0, 1, cell midpoint, arbitrary float}, 1 in 10 samples a copy of an earlier one, lambda in "
+    "{0,1e-3,0.1}, mass lumping on/off, labels +-1 or none; the library is driven through setCurrentArea + "
+    "build_R_matrix/calculate_B/solve_density_estimation or (1 in 4) through StandardCombi.perform_operation, all "
+    "component grids of the scheme checked. dimwise: per-dimension dyadic refinement trees (uniform level 1..3, then "
+    "bisect drawn intervals, smallest interval 2^-8) give non-uniform stripes; boundary points off (on: 1 in 6), "
+    "analytic or numeric entries (numeric: 1 in 12 quick / 1 in 6 thorough, <= 9 points, d <= 2), R cache on/off, one or "
+    "two grids per operation object (state carry-over); driven through build_R_matrix_dimension_wise / "
+    "calculate_B_dimension_wise / calculate_operation_dimension_wise. sasd: a real SpatiallyAdaptiveSingleDimensions2 "
+    "run (d 1..2, thorough 3; lmin 1..2, lmax lmin+1..2, margin, rebalancing on/off, scripted error values, 5..60 (120) "
+    "max_evaluations); every calculate_operation_dimension_wise call is observed and its surpluses compared with the "
+    "oracle for the stripes it was given. hats: hat_function, hat_function_in_support(_vectorized/"
+    "_completely_vectorized), hat_function_non_symmetric(_vectorized/_completely_vectorized) against the reference hat "
+    "and pairwise, all hats of a level vector or of tree stripes, at points on grid lines, on support ends, on the domain "
+    "boundary and inside cells. Non-trivial: uniform = d>=2, anisotropic level vector, >=1 sample coordinate exactly on "
+    "an interior grid line; dimwise = a non-uniform stripe and >=1 sample coordinate on an interior grid line; sasd = at "
+    "least one solved component grid that is non-uniform and has a sample on one of its grid lines; hats = "
+    "(anisotropic or non-uniform) and >=1 point coordinate on an interior grid line. Distinct = distinct case dict."
 )
 ASSUMPTIONS = [
     "data lie in [0,1]^d (so initialize() does not rescale); labels are a numpy array of +1/-1 (what the test-suite and "
@@ -45,7 +51,9 @@ ASSUMPTIONS = [
     "non-uniform stripes are dyadic refinement-tree point sets containing both domain ends and >=1 interior point "
     "per dimension (what get_point_coord_for_each_dim produces)",
     "hat_function_in_support, hat_function_in_support_vectorized and hat_function_non_symmetric_vectorized are only "
-    "called with points inside the closed support of every hat passed (documented precondition: 'guaranteed in support')",
+    "called with points inside the closed support of every hat passed (documented precondition: 'guaranteed in support'); "
+    "hat_function_non_symmetric_vectorized is not called with boundary hats (its only caller, the N>=200 interpolation "
+    "path, is used for boundary=False only)",
     "mass lumping on uniform grids: build_R_matrix returns the (constant) Gram diagonal as a scalar; lambda is accepted "
     "as absent or present there because a constant diagonal shift cancels in the normalisation; on non-uniform grids "
     "the lumped form is Gram diagonal + lambda",
@@ -54,8 +62,9 @@ ASSUMPTIONS = [
     "reuse_old_values is only used for the R cache (post_processing is never called, so no old b-vector exists); the "
     "b-vector reuse path is property C17; the R cache is not combined with numeric entries (a cached inexact value of a "
     "congruent pair would blur the cause predicate of F-C16-numeric)",
-    "dimension-wise analytic matrix entries are compared with 1e-9*max|G| (the library's antiderivatives lose digits "
-    "like 1e-16/h^2), uniform ones with 1e-12*max|G|",
+    "dimension-wise analytic matrix entries are compared with 1e-8*max|G| (the library's antiderivatives lose digits "
+    "like 1e-16/h^2; intervals down to 2^-8 are generated), uniform ones with 1e-12*max|G|; surpluses 1e-6 resp. 1e-8 "
+    "relative to max|alpha|",
 ]
 
 LAMBDAS = [0.0, 1e-3, 0.1]
@@ -524,6 +533,9 @@ class _Container(object):
 
 
 KNOWN_UPPER = "upper-boundary-hat-ignores-samples-at-1"
+# proportionality tolerance on non-uniform grids: the matrix entries carry the 1e-16/h^2 rounding described above and the
+# condition number reaches ~1e3 for lambda = 0 (seen 4e-10 relative); a wrong system is off by >= 1e-3
+DW_TOL = 1e-6
 
 
 def _drop_upper(data):
@@ -581,8 +593,9 @@ def check_dimwise_grid(out, sub, op, stripes, levels, boundary, lam, lump, numer
                 check_matrix(out, sub, R, G, lam, tag, tol=1e-9, clause="gram-numeric")
         else:
             # the library's analytic antiderivatives contain terms of size x^3/h^2, so the rounding error of an entry
-            # grows like 1e-16/h^2 (seen 1.5e-13 for h = 2^-6); 1e-9 * max|G| is >= 100x above that for h >= 2^-8
-            check_matrix(out, sub, R, G, lam, tag, info=info, tol=1e-9)
+            # grows like 1e-16/h^2 (seen 2.3e-11 * max|G| for h = 2^-8, the smallest interval generated);
+            # 1e-8 * max|G| is >= 100x above that and >= 1e5 below a wrong coefficient
+            check_matrix(out, sub, R, G, lam, tag, info=info, tol=1e-8)
     upper = _drop_upper(data) if boundary else np.zeros(len(data), dtype=bool)
     b_used = bref
     if B is not None:
@@ -608,14 +621,14 @@ def check_dimwise_grid(out, sub, op, stripes, levels, boundary, lam, lump, numer
                 A = A * np.asarray(classes)[:, None]
             bdrop = (A * (~upper)[:, None]).sum(axis=0) / len(data)
             o1, o2 = Outcome(), Outcome()
-            check_surpluses(o1, sub, alphas, G_used, lam, bref, w, classes is not None, lump, tag)
+            check_surpluses(o1, sub, alphas, G_used, lam, bref, w, classes is not None, lump, tag, tol=DW_TOL)
             if o1.violations and _maxabs(bdrop - bref) > 1e-12:
-                check_surpluses(o2, sub, alphas, G_used, lam, bdrop, w, classes is not None, lump, tag)
+                check_surpluses(o2, sub, alphas, G_used, lam, bdrop, w, classes is not None, lump, tag, tol=DW_TOL)
                 if not o2.violations:
                     out.bad(sub + "/surplus/" + KNOWN_UPPER, "%s surpluses solve the system whose right-hand side lacks "
                             "the %d sample(s) with a coordinate == 1.0" % (tag, int(upper.sum())))
                     return N
-        check_surpluses(out, sub, alphas, G_used, lam, b_used, w, classes is not None, lump, tag, info=info)
+        check_surpluses(out, sub, alphas, G_used, lam, b_used, w, classes is not None, lump, tag, info=info, tol=DW_TOL)
     return N
 
 
@@ -1120,13 +1133,47 @@ def selftest():
     assert not o.violations and o.nontrivial, (o.violations, o.nontrivial)
 
 
+def uniform_fixed():
+    """deterministic shapes that the random search reaches only occasionally (N >= 200 path with labels / lumping)"""
+    pts = [[0.5, 0.25], [0.0625, 0.9375], [1.0, 0.5], [0.3, 0.7], [0.3, 0.7], [0.0, 0.0]]
+    return [
+        dict(d=2, mode="direct", lam=0.001, lump=False, rng=11, levels=[5, 3], data=pts, bulk=40, snap_res=[5, 3],
+             labels=[1, -1, 1, -1, -1, 1]),
+        dict(d=3, mode="direct", lam=0.1, lump=True, rng=12, levels=[3, 2, 4], data=[p + [0.5] for p in pts], bulk=40,
+             snap_res=[3, 2, 4], labels=None),
+        dict(d=2, mode="combi", lam=0.1, lump=False, rng=14, lmin=1, lmax=4, data=pts, bulk=10, snap_res=[4, 4],
+             labels=None),
+    ]
+
+
+def dimwise_fixed():
+    big = [dict(lmin=3, splits=[0, 2, 5, 9, 11, 3, 7, 14]), dict(lmin=3, splits=[1, 1, 4, 13, 8, 2, 10])]
+    pts = [[0.5, 0.25], [0.0625, 0.9375], [1.0, 0.5], [0.3, 0.7], [0.3, 0.7], [0.0, 0.0], [0.125, 0.1875]]
+    inner = [[0.5, 0.25], [0.0625, 0.9375], [0.3, 0.7], [0.75, 0.75], [0.999, 0.001]]
+    return [
+        dict(d=2, boundary=False, numeric=False, reuse=False, lam=0.001, lump=False, rng=21, grids=[big], data=pts,
+             bulk=40, snap_res=[4, 4], labels=[1, -1, 1, -1, -1, 1, 1]),
+        dict(d=2, boundary=False, numeric=False, reuse=True, lam=0.1, lump=False, rng=22,
+             grids=[[dict(lmin=2, splits=[0, 3]), dict(lmin=1, splits=[1, 2])], [dict(lmin=2, splits=[0, 3, 1]), dict(lmin=1, splits=[1])]],
+             data=pts, bulk=10, snap_res=[4, 4], labels=None),
+        dict(d=2, boundary=True, numeric=False, reuse=False, lam=0.001, lump=False, rng=23,
+             grids=[[dict(lmin=1, splits=[1]), dict(lmin=2, splits=[0])]], data=inner, bulk=0, snap_res=[4, 4],
+             labels=[1, -1, 1, 1, -1]),
+        dict(d=2, boundary=True, numeric=False, reuse=False, lam=0.0, lump=True, rng=24,
+             grids=[[dict(lmin=1, splits=[1]), dict(lmin=2, splits=[0])]], data=inner, bulk=0, snap_res=[4, 4], labels=None),
+        dict(d=2, boundary=False, numeric=True, reuse=False, lam=0.1, lump=False, rng=25,
+             grids=[[dict(lmin=1, splits=[1]), dict(lmin=1, splits=[0, 0])]], data=inner, bulk=0, snap_res=[4, 4],
+             labels=None),
+    ]
+
+
 SUBS = [
     Sub("uniform", uniform_strategy, run_uniform, dict(quick=900, thorough=12000),
-        budget_s=dict(quick=40, thorough=400)),
+        budget_s=dict(quick=22, thorough=200), fixed_cases=uniform_fixed),
     Sub("dimwise", dimwise_strategy, run_dimwise, dict(quick=700, thorough=9000),
-        budget_s=dict(quick=45, thorough=450)),
+        budget_s=dict(quick=20, thorough=200), fixed_cases=dimwise_fixed),
     Sub("sasd", sasd_strategy, run_sasd, dict(quick=250, thorough=3000),
-        budget_s=dict(quick=40, thorough=400)),
+        budget_s=dict(quick=10, thorough=110)),
     Sub("hats", hats_strategy, run_hats, dict(quick=800, thorough=10000),
-        budget_s=dict(quick=30, thorough=300)),
+        budget_s=dict(quick=8, thorough=80)),
 ]
